@@ -45,6 +45,7 @@ var (
 	sConfUnm   = reflect.TypeOf((*confmap.Unmarshaler)(nil)).Elem()
 	sDuration  = "time.Duration"
 	sCustomSet = map[string]bool{}
+	sArrays    = map[string]bool{}
 )
 
 // types whose custom Unmarshal retries with an older schema when the strict decode fails: their
@@ -82,6 +83,9 @@ func sDescribe(t reflect.Type, stack []reflect.Type) *sDesc {
 	case reflect.Ptr:
 		return &sDesc{Kind: "ptr", Elem: sDescribe(t.Elem(), stack), Type: t.String(), rt: t}
 	case reflect.Slice, reflect.Array:
+		if t.Kind() == reflect.Array {
+			sArrays[t.String()] = true // the encoder does not encode array elements (no hooks on them)
+		}
 		if t.Elem().Kind() == reflect.Uint8 {
 			return &sDesc{Kind: "leaf", Leaf: "other", Type: t.String(), rt: t}
 		}
@@ -246,6 +250,20 @@ func sCoqFile(es []sEntry) string {
 			b.WriteString("; ")
 		}
 		b.WriteString(sCoqStr(c))
+	}
+	b.WriteString("].\n")
+	var as []string
+	for a := range sArrays {
+		as = append(as, a)
+	}
+	sort.Strings(as)
+	b.WriteString("\n(* array types below the descriptors (the encoder passes arrays through without encoding their elements) *)\n")
+	b.WriteString("Definition array_types : list string := [")
+	for i, a := range as {
+		if i > 0 {
+			b.WriteString("; ")
+		}
+		b.WriteString(sCoqStr(a))
 	}
 	b.WriteString("].\n")
 	return b.String()
